@@ -342,7 +342,7 @@ MODULE_GLOBALS = {'math': SModule('math'), 'sle': SModule('sle'), 'tt': SModule(
                   '_time': SModule('_time'), 'TT': ('TTclass',), 'sp': SModule('sp'), 'splin': SModule('splin')}
 
 
-INSTANCE_BUDGET_S = float(os.environ.get('VERIF_E1_INSTANCE_BUDGET_S', '240'))
+INSTANCE_BUDGET_S = float(os.environ.get('VERIF_E1_INSTANCE_BUDGET_S', '150'))
 
 
 def _solve(formulas, timeout_ms, reparse=False, seed=0):
@@ -527,8 +527,9 @@ def verify_function(contract, inst, registry):
         # obligations generated before the function left the verified subset are still genuine: the refuted ones are reported
         # (a violation takes precedence over `undecided`); the discharged ones are not counted as a proof of the function
         bad = []
+        n_implied = 0
         for ob in ctx.obls:
-            if ob.expect == 'sat':
+            if ob.expect == 'sat' or getattr(ob, 'structural', False):
                 continue
             try:
                 r, dt, model = _solve_quick(ctx, ob)
@@ -537,6 +538,16 @@ def verify_function(contract, inst, registry):
             if r == 'sat':
                 bad.append({'name': ob.name, 'kind': ob.kind, 'line': ob.line, 'status': FAIL, 't': dt,
                             'detail': ob.detail + ' | counter-model: ' + model + ' | (found before the function left the verified subset: ' + str(e)[:200] + ')'})
+            elif r == 'unknown' and n_implied < 3:
+                # no model of the quantified path condition: refuted all the same if the path condition implies the negation of
+                # the obligation and is itself not refutable within the budget
+                n_implied += 1
+                try:
+                    if _sat(ctx, list(ob.pc) + [ob.goal], 5000) == 'unsat' and _sat(ctx, ob.pc, 5000) != 'unsat':
+                        bad.append({'name': ob.name, 'kind': ob.kind, 'line': ob.line, 'status': FAIL, 't': dt,
+                                    'detail': ob.detail + ' | refuted: the path condition implies the negation of this obligation (found before the function left the verified subset: ' + str(e)[:200] + ')'})
+                except Exception:
+                    pass
         res['obligations'] = bad
         return res
     except Exception:
